@@ -433,3 +433,5 @@ def run(report, repo):
   report.guard(c04.r8_single_body, report, repo, rule='C09-R9')
   from sa.rules import extra4  # pylint: disable=g-import-not-at-top
   report.guard(extra4.state_before_any_exit, report, repo, 'C09-R11')
+  from sa.rules import extra5 as _e5  # pylint: disable=g-import-not-at-top
+  report.guard(_e5.no_bare_next, report, repo, 'C09-R10', _e5.LG, 'remove_record_handler', 'the error escapes Test.execute\'s cleanup before the executor is released, and every later execute() is refused')
